@@ -151,14 +151,14 @@ Section Lower.
     | XAssign l r =>
         ldo p <- lower_expr r st; let '(v, st1) := p in
         match l with
-        | XVar x t => ldo sc <- scope_of st1 x; let '(st2, ref) := emit st1 (ad t) (IStore sc (VName x) v) in LOk (ref, st2)
+        | XVar x t => ldo sc <- scope_of st1 x; let '(st2, ref) := emit st1 (ad t) (IStore sc (VName x) v) in LOk (v, st2)
         | XIdx pa ix t =>
             ldo q <- lower_expr pa st1; let '(a, st2) := q in
             ldo q2 <- lower_expr ix st2; let '(i, st3) := q2 in
-            let '(st4, ref) := emit st3 (ad t) (IStoreArray a i v) in LOk (ref, st4)
+            let '(st4, ref) := emit st3 (ad t) (IStoreArray a i v) in LOk (v, st4)
         | XField pa m t =>
             ldo q <- lower_expr pa st1; let '(a, st2) := q in
-            let '(st3, ref) := emit st2 (ad t) (IStoreMember a m v) in LOk (ref, st3)
+            let '(st3, ref) := emit st2 (ad t) (IStoreMember a m v) in LOk (v, st3)
         | _ => LUnmodelled
         end
     | XPre inc x t | XPost inc x t =>
